@@ -1243,6 +1243,32 @@ def gen_run(rng, tasks, fail_p=0.12):
     return ['run', {'sel': sel, 'always': rng.random() < 0.08, 'cont': fails or rng.random() < 0.3, 'plan': plan}]
 
 
+def sanitize_delayed_selection(case):
+    """A sub-task of a delayed creator named directly in a run selection (or in default_tasks) is looked up through
+    the creator's loader and waits for -- and inherits ignore / failure from -- the `executed` task as long as the
+    creator has not run in that run (control._process_filter: C15's subject, order dependent).  The C13 model gives
+    that edge to the creator's own task only, so such selections name the group instead."""
+    tasks = case['tasks']
+    sub_of_delayed = {k: t['sub_of'] for k, t in enumerate(tasks)
+                      if t.get('sub_of') is not None and tasks[t['sub_of']].get('delayed')}
+    if not sub_of_delayed:
+        return case
+
+    def fix(sel):
+        out = []
+        for x in sel:
+            x = sub_of_delayed.get(x, x)
+            if x not in out:
+                out.append(x)
+        return out
+    if case.get('default') is not None:
+        case['default'] = fix(case['default'])
+    for op in case['ops']:
+        if op[0] == 'run' and op[1].get('sel') is not None:
+            op[1]['sel'] = fix(op[1]['sel'])
+    return case
+
+
 def gen_case(rng):
     nsrc, tasks = gen_tasks(rng)
     n = len(tasks)
@@ -1314,7 +1340,7 @@ def gen_case(rng):
         # cannot read, findings/pending/C03-md5-on-timestamp-state.md)
         first_run = next((k for k, o in enumerate(ops) if o[0] == 'run'), len(ops) - 1)
         ops.insert(rng.randint(first_run + 1, len(ops)), ['checker', 'timestamp'])
-    return case
+    return sanitize_delayed_selection(case)
 
 
 def mutate_case(rng, case):
@@ -1336,7 +1362,7 @@ def mutate_case(rng, case):
             c['ops'].insert(pos, ['reset', gen_names(rng, n)])
         elif len(c['ops']) > 2:
             del c['ops'][rng.randrange(len(c['ops']))]
-    return c
+    return sanitize_delayed_selection(c)
 
 
 # ----------------------------------------------------------------------------------------------
@@ -1415,6 +1441,7 @@ def exhaustive_cases(maxlen, rng, sample=None):
                 cases.append({'backend': statuslib.BACKENDS[k % 3], 'checker': statuslib.CHECKERS[(k // 3) % 2],
                               'db_loc': ['plain', 'subdir', 'abs', 'cli'][(k // 6) % 4], 'nsrc': 1, 'tasks': json.loads(json.dumps(tasks)), 'default': default, 'ops': ops,
                               'origin': 'exhaustive'})
+                sanitize_delayed_selection(cases[-1])
                 k += 1
     return cases
 
